@@ -22,7 +22,7 @@ RULE = ('per configuration (backend x backoff x messages x recipients x pools x 
         'state); obligations at quiescence: no recipient outstanding, nothing removed while outstanding, every attempt '
         'carries exactly the outstanding recipients, every failed recipient of a message with a sender is named in an '
         'enqueued bounce.  Non-trivial = execution with a retry, a partial result or a bounce.')
-ASSUMPTIONS = ['the virtual gevent loop is bound to the real one by replaying scenarios (default schedule, scripted outcomes) on the real loop with scaled real time and comparing the attempt sequences', 'real PipeRelay/MaildropRelay/StaticSmtpRelay/StaticLmtpRelay configurations use a scripted downstream (fake Popen, scripted peer over in-memory sockets)', 'ScriptedRelay outcomes are restricted to the documented Relay.attempt contract (complete mappings, values '
+ASSUMPTIONS = ['the virtual gevent loop is bound to the real one by replaying scenarios (default schedule, scripted outcomes) on the real loop with scaled real time and comparing the attempt sequences', 'real PipeRelay/MaildropRelay/StaticSmtpRelay/StaticLmtpRelay/HttpRelay configurations use a scripted downstream (fake Popen, scripted peer over in-memory sockets, scripted HTTP origin)', 'ScriptedRelay outcomes are restricted to the documented Relay.attempt contract (complete mappings, values '
                'None / Reply / relay errors)', 'fake redis client and fake cloud object store (aws.py semantics); in-memory FS for disk',
                'gevent FIFO dispatch of ready callbacks is platform semantics']
 
@@ -55,7 +55,7 @@ def configs(tier, seed):
         cfgs.append(dict(backend=b, backoff='r0x2', n=2, messages=1, d=0, dd=3, menu=dict(reversed_maps=True, boom=False, reply_ok=False)))
         cfgs.append(dict(backend=b, backoff='r0x2', n=3, messages=1, d=0, dd=2, menu=dict(reversed_maps=True, boom=False, reply_ok=False)))
         # real relay classes in front of a scripted downstream: what they return meets what the queue understands
-        for rk in ('pipe', 'pipe-whole', 'maildrop', 'smtp', 'lmtp'):
+        for rk in ('pipe', 'pipe-whole', 'maildrop', 'smtp', 'lmtp', 'http'):
             if b in ('dict', 'disk') or not q:
                 cfgs.append(dict(backend=b, backoff='r0x2', n=2, messages=1, d=0, dd=3 if q else 4, relay_kind=rk, menu={}))
         if not q:
